@@ -248,8 +248,7 @@ func judgeSurvive(res *check.Result, sc *world.Scenario, co *childOut, prop stri
 		for i := range sc.Fans {
 			f := &sc.Fans[i]
 			pwm, mode := readFinal(co.WorldDir, sc, f)
-			hasMode := f.Kind == "hwmon" && !f.Driver.NoEnable
-			if !(pwm == 255 || (hasMode && mode == f.Driver.InitMode && f.Driver.InitMode != 1)) {
+			if !handedBack(f, pwm, mode) {
 				bad = append(bad, fmt.Sprintf("%s(mode %d, pwm %d)", f.ID, mode, pwm))
 			}
 		}
@@ -272,8 +271,7 @@ func judgeSurvive(res *check.Result, sc *world.Scenario, co *childOut, prop stri
 			continue
 		}
 		pwm, mode := readFinal(co.WorldDir, sc, f)
-		hasMode := f.Kind == "hwmon" && !f.Driver.NoEnable
-		ok := pwm == 255 || (hasMode && mode == f.Driver.InitMode && f.Driver.InitMode != 1)
+		ok := handedBack(f, pwm, mode)
 		if restored[f.ID] && ok {
 			res.Probe("fan-stopped-and-restored")
 			continue
